@@ -25,7 +25,7 @@ func table(t *srctab.T) {
 				names = append(names, srctab.P(srctab.S(p.Eval(kv.K, nil)), srctab.Z(p.Eval(kv.V, nil))))
 			}
 		}
-		t.Emit("cron."+name+".names", p.Pos(lit), srctab.SortedPairs(names))
+		t.EmitPairs("cron."+name+".names", p.Pos(lit), srctab.SortedPairs(names))
 	}
 	t.Emit("cron.starBit", "cron/spec.go", srctab.Z(p.Const("starBit")))
 
@@ -39,7 +39,7 @@ func table(t *srctab.T) {
 	for _, o := range []string{"Second", "SecondOptional", "Minute", "Hour", "Dom", "Month", "Dow", "DowOptional", "Descriptor"} {
 		opts = append(opts, srctab.P(srctab.Str(o), srctab.Z(p.Const(o))))
 	}
-	t.Emit("cron.ParseOption", "cron/parser.go", srctab.L(opts...))
+	t.EmitPairs("cron.ParseOption", "cron/parser.go", opts)
 	places, defaults := p.Elems(p.Var("places")), p.Elems(p.Var("defaults"))
 	if len(places) != len(defaults) {
 		srctab.Failf("%s: places and defaults differ in length", p.Pos(p.Var("places")))
@@ -93,7 +93,7 @@ func table(t *srctab.T) {
 			descs = append(descs, srctab.P(srctab.S(l), srctab.L(fields...)))
 		}
 	}
-	t.Emit("cron.parseDescriptor", p.Pos(pdf), srctab.SortedPairs(descs))
+	t.EmitPairs("cron.parseDescriptor", p.Pos(pdf), srctab.SortedPairs(descs))
 	t.Emit("cron.parseDescriptor.every", p.Pos(pdf), srctab.S(p.LocalConst(pdf, "every")))
 
 	// constantdelay.go Every: delays are rounded down to, and at least, time.Second
